@@ -2061,3 +2061,15 @@ TABLE["C18"] += [
     B("size-t-array-created-32-bit", {"K16", "K3"},
       (H, "mxArray* wrap<size_t>(const size_t& value) {\n  mxArray *result = scalar(mxUINT32OR64_CLASS);", "mxArray* wrap<size_t>(const size_t& value) {\n  mxArray *result = scalar(mxUINT32_CLASS);")),
 ]
+TABLE["C18"] += [
+    B("enum-value-read-after-its-array-was-destroyed", {"K17"},
+      (H, "  int32_T* value = (int32_T*)mxGetData(a_int32);\n", "  int32_T* value = (int32_T*)mxGetData(a_int32);\n  mxDestroyArray(a);\n  mxDestroyArray(a_int32);\n")),
+    N("enum-value-copied-before-its-array-is-destroyed",
+      (H, "  int32_T* value = (int32_T*)mxGetData(a_int32);\n  // cast int32 to enum type\n  return static_cast<T>(*value);", "  const int32_T value = *(int32_T*)mxGetData(a_int32);\n  mxDestroyArray(a);\n  mxDestroyArray(a_int32);\n  // cast int32 to enum type\n  return static_cast<T>(value);")),
+    B("string-built-after-its-buffer-was-freed", {"K17"},
+      (H, "  string str(data);\n  mxFree(data);\n  return str;", "  mxFree(data);\n  string str(data);\n  return str;")),
+]
+TABLE["C11"] += [
+    B("enum-value-read-after-its-array-was-destroyed", {"H25"},
+      (H, "  int32_T* value = (int32_T*)mxGetData(a_int32);\n", "  int32_T* value = (int32_T*)mxGetData(a_int32);\n  mxDestroyArray(a);\n  mxDestroyArray(a_int32);\n")),
+]
